@@ -14,6 +14,7 @@ import (
 	"runtime"
 	"runtime/debug"
 	"strings"
+	"sync"
 	"time"
 
 	"github.com/wollac/iota-crypto-demo/pkg/slip10"
@@ -405,6 +406,72 @@ func (r *runState) mix(s string) {
 	}
 }
 
+var firstUse sync.Once
+
+// firstUseFromTwoGoroutines: before anything else has touched the package in this process, two goroutines that nothing
+// orders with each other derive a few keys on every curve from a fixed seed - the real Curve and Key types, no double.
+// Whatever the package (or the curve code below it) builds lazily on first use is built here, by two callers at once:
+// the race flavour reports unsynchronised initialisation as the data race it is, and in every flavour both callers'
+// results are compared with the reference. The two goroutines run truly in parallel - the one place in this engine
+// where the Go scheduler, not the simulator, decides; on code without such state the results do not depend on it.
+func (r *runState) firstUseFromTwoGoroutines() {
+	seed := []byte("first use of the package in this process, by two callers at once")
+	type out struct {
+		curve, what string
+		got, want   []byte
+	}
+	var res [2][]out
+	var wg sync.WaitGroup
+	for g := 0; g < 2; g++ {
+		wg.Add(1)
+		go func(g int) {
+			defer wg.Done()
+			defer func() {
+				if p := recover(); p != nil {
+					res[g] = append(res[g], out{"?", fmt.Sprintf("panic: %v", p), []byte{1}, nil})
+				}
+			}()
+			for _, name := range []string{"secp256k1", "nist256p1", "ed25519"} {
+				rc, mc := curves(name)
+				mf := &ref.Faults{Reject: func([]byte) bool { return false }, Permanent: func([]byte) bool { return false }}
+				mm, _ := ref.Master(mc, seed, mf)
+				mk, err := slip10.NewMasterKey(append([]byte{}, seed...), rc)
+				if err != nil {
+					res[g] = append(res[g], out{name, "NewMasterKey: " + err.Error(), []byte{1}, nil})
+					continue
+				}
+				idx := []uint32{1<<31 + uint32(g), 7}
+				if name == "ed25519" {
+					idx = []uint32{1<<31 + uint32(g), 1<<31 + 7}
+				}
+				k, m := mk, mm
+				for _, ix := range idx {
+					var e2 error
+					if k, e2 = k.DeriveChild(ix); e2 != nil {
+						res[g] = append(res[g], out{name, "DeriveChild: " + e2.Error(), []byte{1}, nil})
+						break
+					}
+					m, _ = m.Child(ix, mf)
+					res[g] = append(res[g], out{name, "key", append([]byte{}, k.Key.Bytes()...), m.Key},
+						out{name, "chain code", append([]byte{}, k.ChainCode...), m.ChainCode},
+						out{name, "public key", k.Key.Public().Bytes(), m.Public()},
+						out{name, "fingerprint", k.Fingerprint(), m.Fingerprint()})
+				}
+			}
+		}(g)
+	}
+	wg.Wait()
+	r.res.Probes["first_derivations_of_the_process_made_by_two_goroutines"] = 1
+	for g := range res {
+		for _, o := range res[g] {
+			if !bytes.Equal(o.got, o.want) {
+				r.violate("model-divergence:first-use-from-two-goroutines", fmt.Sprintf("the first derivations of the process were made by two goroutines at the same time, on the repository's own curves; caller %d on %s: %s is %x, the specification says %x", g, o.curve, o.what, o.got, o.want), map[string]any{"curve": o.curve, "api": "first-use"})
+				return
+			}
+		}
+	}
+}
+
 // Run executes one configuration.
 func Run(cfg *Config) proto.End {
 	r := &runState{cfg: cfg, w: &world{cfg: cfg, constShift: map[string][]byte{}}, hash: 14695981039346656037}
@@ -418,6 +485,8 @@ func Run(cfg *Config) proto.End {
 		fc = realCurve
 		r.res.Probes["real_curve_and_key_types_without_the_double"] = 1
 	}
+	// the first run of a process: the application's first derivations come from two goroutines at once (DESIGN 8.4, s82)
+	firstUse.Do(func() { r.firstUseFromTwoGoroutines() })
 	for i := range cfg.Ops {
 		if r.stop {
 			break
